@@ -3,7 +3,9 @@
 //! diffs (C01 edit scripts) under a menu of header dialects.
 use libpatch::patch::unified::parser::parse_patch;
 use libpatch::patch::unified::writer::UnifiedPatchWriter;
-use libpatch::patch::{FilePatchKind, TextPatch};
+use libpatch::analysis::{fn_analysis_note_noop, AnalysisSet};
+use libpatch::modified_file::ModifiedFile;
+use libpatch::patch::{FilePatchKind, PatchDirection, TextPatch};
 
 use crate::c01::{Case, Op, SIGMA2, SIGMAN};
 use crate::c11::{input_of, space_size, Space};
@@ -30,6 +32,37 @@ fn describe(p: &TextPatch) -> Vec<String> {
             fp.new_hash().map(lossy),
             fp.hunks().len()
         ));
+        // "describes the same file patches": whatever else the parsed form carries shows in what it does. Each file patch is
+        // applied (fuzz 0, both directions) to no file, an empty file, a file holding the old side of its first hunk and one
+        // holding the new side; outcome and resulting state are part of the description.
+        let sides: Vec<Vec<u8>> = match fp.hunks().first() {
+            Some(h) => vec![h.remove.content.iter().flat_map(|l| l.to_vec()).collect(), h.add.content.iter().flat_map(|l| l.to_vec()).collect()],
+            None => vec![],
+        };
+        let mut files: Vec<Option<&[u8]>> = vec![None, Some(&b""[..])];
+        for s in &sides {
+            if !s.is_empty() {
+                files.push(Some(&s[..]));
+            }
+        }
+        let mut b = String::from("  B");
+        // (not for modifying entries with hunks: the statement defines "same hunk" by the two line sequences and the start
+        // lines, not by which of the equal lines are written as context, and the writer is free to choose there)
+        if fp.kind() == FilePatchKind::Modify && !fp.hunks().is_empty() {
+            files.clear();
+        }
+        for file in &files {
+            for &dir in &[PatchDirection::Forward, PatchDirection::Revert] {
+                let mut mf = match file {
+                    Some(c) => ModifiedFile::new(c, true, None),
+                    None => ModifiedFile::new_non_existent(),
+                };
+                let rep = fp.apply(&mut mf, dir, 0, &AnalysisSet::default(), &fn_analysis_note_noop);
+                let st = state_of(&mf);
+                b.push_str(&format!(" [{} {:?} del={} mode={:?}]", if rep.ok() { "ok" } else { "failed" }, lossy(&st.content), st.deleted, st.mode));
+            }
+        }
+        v.push(b);
         for h in fp.hunks() {
             v.push(format!(
                 "  H old@{} new@{} old={:?} new={:?}",
@@ -127,7 +160,7 @@ pub fn roundtrip(inp: &[u8]) -> Outcome {
                 let mut fields: Vec<String> = fa.iter().zip(fb.iter()).filter(|(x, y)| x != y).map(|(x, _)| x.split(|c| c == '=' || c == '@').next().unwrap_or("").to_string()).collect();
                 fields.dedup();
                 fields.truncate(3);
-                if d1.len() != d2.len() { "hunks-differ".to_string() } else { format!("differs:{}", fields.join(",")) }
+                if d1.len() != d2.len() { "hunks-differ".to_string() } else if a.starts_with("  B") { "differs:effect-on-a-file".to_string() } else { format!("differs:{}", fields.join(",")) }
             };
             return Outcome::Violation { class, mode, written: w };
         }
@@ -218,7 +251,7 @@ pub fn run(args: &[String]) {
         ("token_seq_len", J::u(l as u64)),
         ("script_len_sigma2", J::u(l2 as u64)),
         ("script_len_nasty", J::u(ln as u64)),
-        ("dialects", J::A(DIALECTS.iter().map(|d| J::s(d.0)).collect())),
+        ("dialects", J::A(DIALECTS.iter().map(|d| J::s(d.0)).chain(std::iter::once(J::s("diff-N"))).collect())),
         ("wall_s", J::F(t0.elapsed().as_secs_f64())),
     ]);
     println!("{}", out.to_string());
@@ -245,6 +278,13 @@ fn dialect_rec(sigma: &[&[u8]], cur: &mut Vec<Op>, maxlen: usize, rep: &mut Repo
                     let mut inp = pre.as_bytes().to_vec();
                     inp.extend_from_slice(&d);
                     record(&inp, label, rep);
+                    // `diff -N`: the side that does not exist carries the real name, dated to the epoch
+                    if *label == "timestamps" && (case.a_absent || case.b_absent) {
+                        let epoch = "\t1970-01-01 00:00:00.000000000 +0000";
+                        let text = String::from_utf8_lossy(&inp).into_owned();
+                        let text = text.replacen("--- /dev/null", &format!("--- a/f{}", epoch), 1).replacen("+++ /dev/null", &format!("+++ b/f{}", epoch), 1);
+                        record(text.as_bytes(), "diff-N", rep);
+                    }
                 }
             }
         }
